@@ -991,7 +991,7 @@ def parseSwitchStmtBody (r : Tbl) : P Statement := do
     if ← skipped Operator.SemiColon then
       init := tag
       tag := none
-    if ← currentNot Operator.BraceLeft then tag := some (← r.parseSimpleStmt)
+      if ← currentNot Operator.BraceLeft then tag := some (← r.parseSimpleStmt)
   modify fun s => { s with exprLevel := prevLevel }
   let typeSwitch ← isTypeSwitch tag
   let block ← r.parseCaseBlock typeSwitch
